@@ -114,6 +114,8 @@ async fn create_topic(
         })?;
     command.message_expiry = topic.message_expiry;
     command.max_topic_size = topic.max_topic_size;
+    // The assigned ID is journalled, otherwise the replay would have to guess it again.
+    command.topic_id = Some(topic.topic_id);
     let response = Json(mapper::map_topic(topic).await);
 
     let system = system.downgrade();
